@@ -927,7 +927,19 @@ fn main() {
             lt = vec![ListTamper::Shift { fake, from, dropped: names[i1].clone() }];
             follow = rng.chance(3, 4);
         }
-        let range = gen_range(&mut rng, beacon);
+        let mut range = gen_range(&mut rng, beacon);
+        if rng.chance(1, 6) && beacon >= 1 {
+            // one entry renamed to a PATH whose last component is the name of another certified file of a lower number
+            // (`00004.chunk` -> `00004.chunk/00003.chunk`): it keeps its place in the list, so the signed root is
+            // reproduced; the mirror arranges the directory to match (the renamed entry's content over the other file)
+            // and the verified range leaves the renamed entry's own number out
+            let na = rng.range(1, beacon);
+            let no = rng.below(na);
+            let (a, other) = (trio_name(na, rng.below(3) as usize), trio_name(no, rng.below(3) as usize));
+            lt = vec![ListTamper::Rename(a.clone(), format!("{}/{}", a, other))];
+            follow = true;
+            range = match rng.below(3) { 0 => R::UpTo(no), 1 => R::Range(no, na - 1), _ => R::Range(0, na - 1) };
+        }
         let allow = rng.chance(1, 3);
         let nt = if rng.chance(1, 3) { 1 } else { 0 };
         let tag = if lt.is_empty() { "pipeline.honest" } else { "pipeline.tampered" };
